@@ -96,6 +96,7 @@ def decFQ (j : Json) : Except String FQ := do
       let name ← jstr c "name"
       let ck ← jstr c "k"
       if ck = "scalar" then pure (name, Col.scalar (← decEE (← c.getObjVal? "e")))
+      else if ck = "first" then pure (name, Col.first (← decChain (← c.getObjVal? "c")))
       else pure (name, Col.seq (← decChain (← c.getObjVal? "c")))
     pure (.eventRows cols)
   else
